@@ -249,7 +249,7 @@ def run_mc(cfg, wd, workers=12, timeout=1500, label=None):
     return out
 
 
-def run_property(prop, tier, mc_cfgs, plan, level_text_rule, assumptions):
+def run_property(prop, tier, mc_cfgs, plan, level_text_rule, assumptions, extra=None):
     """plan: list of (group, n_random, n_ops, kinds, mode, reject_bias)."""
     import time
     t0 = time.time()
@@ -300,6 +300,12 @@ def run_property(prop, tier, mc_cfgs, plan, level_text_rule, assumptions):
         "nested_crash_points": sum(s["nested_points"] for s in t_stats),
         "trace_events": sum(s["events"] for s in t_stats),
     }
+    if extra is not None:
+        add_viol, add_cov = extra(tier, wd)
+        n_viol += add_viol
+        cov["states"] += add_cov.pop("states", 0)
+        cov["traces_validated_against_impl"] += add_cov.pop("traces", 0)
+        cov.update(add_cov)
     vlib.write_evidence(prop, tier, "model_checking", cov, time.time() - t0, n_viol, assumptions=assumptions)
     vlib.cleanup(wd)
     return n_viol
